@@ -28,7 +28,7 @@ def run(ctx):
         tab = ctx.behaviours("trie", "Gen_MTA", "Gen_MTA_table.cfg", workers=1, timeout=1800,
                              constants={"TableFrom": 1, "TableTo": tmax})
         walks = ctx.behaviours("trie", "Gen_MTA", "Gen_MTA.cfg", constants={"MaxOps": wl, "Depth": wl},
-                               simulate="num=%d" % ctx.pick(60, 1500), depth=wl + 1, seed=ctx.seed, timeout=1800)
+                               simulate="num=%d" % ctx.pick(60, 600), depth=wl + 1, seed=ctx.seed, timeout=1800)
         ntab, nwalk = len(tab), len(walks)
         lines = tab + walks
         for b in walks[:2]:
